@@ -224,11 +224,19 @@ func (p *Prog) AnalyzeLocks(cfg LockCfg) *Locks {
 		changed := false
 		l.Problems = nil
 		newEntry := map[*ssa.Function]LockState{}
-		contribute := func(f *ssa.Function, st LockState) {
+		contribute1 := func(f *ssa.Function, st LockState) {
 			if cur, ok := newEntry[f]; ok {
 				newEntry[f] = cur.meet(st)
 			} else {
 				newEntry[f] = st
+			}
+		}
+		// a call of an instantiation inside a generic body is also a call of
+		// the generic function it instantiates (the body rules look at)
+		contribute := func(f *ssa.Function, st LockState) {
+			contribute1(f, st)
+			if o := f.Origin(); o != nil && o != f {
+				contribute1(o, st)
 			}
 		}
 		for _, f := range l.funcs {
